@@ -106,6 +106,8 @@ structure Srv where
   nameOf : Nat → Nat
   /-- does a loop run the functors still queued when it leaves `loop()`? (`init` takes it from the source) -/
   drain : Bool := finalDrain
+  /-- is that drain repeated until the queue is empty? -/
+  drainRepeats : Bool := finalDrainRepeats
   q : Nat → List Task := fun _ => []
   /-- functors of the current batch that loop `l` has already run (their references are still held) -/
   done : Nat → List Task := fun _ => []
@@ -255,6 +257,16 @@ def releaseHead (s : Srv) (l : Nat) : Srv :=
 (`doPendingFunctors` returns, its local vector goes out of scope) -/
 def endBatch (s : Srv) (l : Nat) : Srv := iterate (fun s => releaseHead s l) (s.done l).length s
 
+/-- one `doPendingFunctors()` after the loop has left its `while`: the batch is what is queued now; then the batch
+vector dies -/
+def drainBatch (s : Srv) (l : Nat) : Srv := endBatch (iterate (fun s => runHead s l) (s.q l).length s) l
+
+/-- `do { doPendingFunctors(); } while (queueSize() > 0);` - at most `fuel` rounds (a functor of this model queues at
+most one functor on its own loop, and that one queues none: the second round leaves nothing behind, `Proofs/OwnerExit`) -/
+def drainAll (l : Nat) : Nat → Srv → Srv
+  | 0, s => s
+  | f + 1, s => if (drainBatch s l).q l = [] then drainBatch s l else drainAll l f (drainBatch s l)
+
 /-- `~EventLoop` destroys a functor that was never run: its reference goes away -/
 def dropHead (s : Srv) (l : Nat) : Srv :=
   match s.q l with
@@ -342,9 +354,10 @@ def step (s : Srv) : Action → Srv
   | .postDestroy => if s.alive then s.enq 0 .srvDtor else s
   | .exit l =>
     if s.exited l || !(s.done l).isEmpty || (l != 0 && (s.alive || decide (s.L < l))) then s
-    else endBatch (iterate (fun s => runHead s l) (if s.drain then (s.q l).length else 0)
-                    { s with exited := fun i => if i = l then true else s.exited i }) l
-
+    else if s.drain then
+      (if s.drainRepeats then drainAll l 3 { s with exited := fun i => if i = l then true else s.exited i }
+       else drainBatch { s with exited := fun i => if i = l then true else s.exited i } l)
+    else { s with exited := fun i => if i = l then true else s.exited i }
   | .loopGone l =>
     if s.exited l && (s.done l).isEmpty && !s.alive then iterate (fun s => dropHead s l) (s.q l).length s else s
 
